@@ -1,5 +1,5 @@
 """Property -> rules table."""
-import lattice_rules, agg_rules, lib_rules, byods_rules
+import lattice_rules, agg_rules, lib_rules, byods_rules, gen_driver
 
 
 def run_C16(ctx, rep):
@@ -48,7 +48,94 @@ def run_C12(ctx, rep):
     byods_rules.check_L17(ctx, rep)
 
 
+def run_C05(ctx, rep):
+    lib_rules.check_L1(ctx, rep)
+    gen_driver.run_gen(ctx, rep, ['G1G3', 'USES'], floors={'G1': 300, 'G1.lat': 20, 'G1.uses': 800})
+
+
+def run_C02(ctx, rep):
+    lib_rules.check_L1(ctx, rep)
+    lib_rules.check_L13(ctx, rep)
+    gen_driver.run_gen(ctx, rep, ['G1G3', 'G2G7', 'G5', 'G6', 'G10'], only_par=True, floors={'G1': 100, 'G6': 15, 'G10': 15, 'G4': 4})
+
+
+def run_C03(ctx, rep):
+    gen_driver.run_gen(ctx, rep, ['G1G3', 'G3r'], floors={'G1.lat': 20, 'G2.lat': 10, 'G4': 8})
+    lattice_rules.check_L10(ctx, rep)
+
+
+def run_C13(ctx, rep):
+    gen_driver.run_gen(ctx, rep, ['UI', 'G6', 'G5', 'G8'], floors={'G4.ui': 500, 'G3.ui': 500, 'G6': 15, 'G5': 250, 'G8': 60})
+
+
+def run_C14(ctx, rep):
+    gen_driver.run_gen(ctx, rep, ['G2G7', 'G8', 'G1G3', 'UI'], floors={'G7': 6, 'G8': 60, 'G3.ui': 500})
+
+
+def run_C04(ctx, rep):
+    gen_driver.run_gen(ctx, rep, ['G9', 'G1G3', 'UI'], floors={'G9': 20})
+    agg_rules.check_L11(ctx, rep)
+
+
 PROPS = {
+    'C05': {
+        'run': run_C05, 'level': 'other',
+        'explanation': 'G1 on every append site of every generated program (corpus + programs shipped in /repo), serial and parallel, plain and '
+                       'lattice: a row is appended only inside the success branch of insert_if_not_present on the NEW version of the full '
+                       'index of the same relation, itself inside !contains_key(total) && !contains_key(delta) for the same row, and the '
+                       'appended tuple is that row; lattice rows are created only after the key was looked up in new, delta and total of the '
+                       'key index (parallel: under the key-hashed mutex after re-checking new); inventory of every use of a relation row store '
+                       '(no removal / overwrite); L1: the library operation is one critical section. Holds for all inputs and schedules '
+                       'because no input or schedule is looked at.',
+        'assumptions': ['hashbrown / dashmap entry APIs are atomic per shard', 'Hash/Eq of user column types are consistent'],
+        'rule_text': 'one instance = one append site / one use of a row store / one library implementation',
+    },
+    'C02': {
+        'run': run_C02, 'level': 'other',
+        'explanation': 'schedule-independence obligations on every parallel program of the corpus and of /repo: atomic dedup and guarded append '
+                       '(G1, L1), atomic change flag set by every inserting block and loop exit after the merges (G2), version protocol (G5), '
+                       'freeze typestate - readers see frozen, writers unfrozen indices, simulated over two runs (G6), acyclic lock order and no '
+                       'guard across a fork/join (G10), re-queued lattice rows go to idempotent index types (G4), is_empty of the index views is '
+                       'exact (L13). NOT decided: DashMap / boxcar / rayon internals, user code panics.',
+        'assumptions': ['dashmap, boxcar, rayon are linearizable / deadlock free', 'user expressions do not panic or block'],
+        'rule_text': 'one instance = one append site, one typestate requirement, one guard, one merge, one library implementation',
+    },
+    'C03': {
+        'run': run_C03, 'level': 'other',
+        'explanation': 'lattice update protocol on every lattice head update of corpus + shipped programs: lookup chain over new/delta/total of the '
+                       'key index, join_mut into the last column of the found row, re-queue guarded by exactly the join_mut result (parallel: '
+                       'and not-already-in-new), re-queue into every non-full index whose writer is idempotent (G4), every index that a rule '
+                       'reads is maintained by the head updates (G3r), plus L10 (join_mut reports changes truthfully). NOT decided: monotonicity of '
+                       'user rules.',
+        'assumptions': ['user lattice types outside ascent_base obey the Lattice contract', 'rules use lattice values monotonically'],
+        'rule_text': 'one instance = one lattice head-update site / one read index / one Lattice impl path',
+    },
+    'C13': {
+        'run': run_C13, 'level': 'other',
+        'explanation': 're-run obligations over corpus + shipped programs: run() starts by rebuilding every index from every stored row (G8, '
+                       'G3.ui full scan, unconditional), into indices that are reset or written by an idempotent writer (G4.ui), every index field '
+                       'is in the writable state at that point on the first and on later calls (G6 simulated across two runs), every stored fact '
+                       'of a head relation becomes delta of its stratum (G5 take(field) form).',
+        'assumptions': ['users do not modify index fields (private)'],
+        'rule_text': 'one instance = one (index field, rebuild site) / one typestate requirement / one stratum',
+    },
+    'C14': {
+        'run': run_C14, 'level': 'other',
+        'explanation': 'run_timeout obligations: early exit only as `if timeout < MAX && elapsed >= timeout {return false}` after the merges of an '
+                       'iteration (G7), true only as the final expression, run() == run_timeout(MAX), no early exit without the attribute; '
+                       'soundness at every program point via guarded insertion (G1) and resumability via full, unconditional re-indexing at the next '
+                       'run (G8, G3.ui). Deadlines are not sampled: the rules hold at every point.',
+        'assumptions': ['Instant is monotonic'],
+        'rule_text': 'one instance = one stratum exit / one append site / one rebuild site',
+    },
+    'C04': {
+        'run': run_C04, 'level': 'other',
+        'explanation': 'stratum finality and exactly-once feeding: every aggregation / negation site reads the total version of a body-only index of a '
+                       'relation that no same-or-later stratum writes (G9); index entries are one per row (G1 uniqueness, G3 one insertion per row '
+                       'and index, G4 no accumulation on re-run or on lattice updates); shape of the library aggregators (L11).',
+        'assumptions': ['aggregator arithmetic is not decided'],
+        'rule_text': 'one instance = one aggregation site / one index maintenance site',
+    },
     'C10': {
         'run': run_C10, 'corpus': False, 'level': 'other',
         'explanation': 'structural obligations of the eqrel provider: L5 the delta / total produced by every per-key merge of the ternary '
